@@ -255,20 +255,45 @@ def check(args):
         "harness_errors": [dict(where=h.get("where"), error=str(h.get("error"))[-600:]) for h in harness_errors[:5]],
     }
     if tot.get("native"):
-        import glob
-        import re
+        import subprocess
         exported = set()
-        for fn in glob.glob(os.path.join(REPO_DIR, "src", "*.c")):
-            try:
-                with open(fn, errors="replace") as f:
-                    exported.update(re.findall(r"EXPORT_SYM\s+[A-Za-z_0-9 \*]+?\b([A-Za-z_0-9]+)\s*\(", f.read()))
-            except OSError:
-                pass
-        reached = set(x.split(".", 1)[1] for x in tot["native"])
+        libroot = os.path.join(seams.build_dir(), "lib")
+        for dp, _dns, fns in os.walk(os.path.join(libroot, "Crypto")):
+            for fn in sorted(fns):
+                if not fn.endswith(".so"):
+                    continue
+                mod = fn.split(".", 1)[0]
+                try:
+                    out = subprocess.run(["nm", "-D", "--defined-only", os.path.join(dp, fn)], stdout=subprocess.PIPE,
+                                         stderr=subprocess.DEVNULL, text=True, timeout=30).stdout
+                except Exception:
+                    continue
+                for line in out.splitlines():
+                    parts = line.split()
+                    if len(parts) == 3 and parts[1] == "T" and not parts[2].startswith(("_", "PyInit")):
+                        exported.add("%s.%s" % (mod, parts[2]))
+        # entry points proper: exported symbols that the Python layer names (the extension modules also export
+        # internal helpers such as mont_mult, which Python never calls), plus whatever was in fact called
+        import re
+        words = set()
+        for dp, dns, fns in os.walk(os.path.join(libroot, "Crypto")):
+            dns[:] = [d for d in dns if d != "SelfTest"]
+            for fn in fns:
+                if fn.endswith(".py"):
+                    try:
+                        with open(os.path.join(dp, fn), errors="replace") as f:
+                            words.update(re.findall(r"[A-Za-z_][A-Za-z_0-9]*", f.read()))
+                    except OSError:
+                        pass
+        exported = set(x for x in exported if x.split(".", 1)[1] in words or x in tot["native"])
+        reached = set(tot["native"]) & exported if exported else set(tot["native"])
         cov["native_entry_points_reached"] = len(reached)
         cov["native_entry_points_exported"] = len(exported)
-        cov["native_entry_points_measure"] = ("distinct C functions called through the ctypes proxy by the worker processes of this run "
-                                             "(calls made inside forked per-case children are not counted)")
+        cov["native_entry_points_unreached"] = sorted(exported - reached)[:60]
+        cov["native_entry_points_measure"] = ("distinct exported C functions (dynamic symbol tables of the extension modules of this "
+                                             "build, restricted to names the Python layer mentions) called through the ctypes proxy by the worker processes of this run and by "
+                                             "their forked per-case children (children of those - e.g. C17's one child per "
+                                             "allocation index - are not counted)")
     if hasattr(m, "extra_coverage"):
         cov.update(m.extra_coverage(tot))
     ev = {"property_id": prop, "tier": tier, "seed": args.seed, "level": m.LEVEL, "coverage": cov,
